@@ -103,16 +103,17 @@ static void nodeChecks(Position& pos, const orc::Board& b, bool afterMove) {
     // hash equality of rule-equal positions (FIDE key: placement, side, rights, legally possible ep capture)
     {
         std::string k = orc::repKey(b);
-        auto it = transpo.find(k);
         U64 h = pos.zobristHash();
-        if (it == transpo.end()) { if (transpo.size() < TRANSPO_CAP) transpo.emplace(k, h); }
-        else {
-            R.count("transpositions");
-            if (it->second != h) {
-                bool epSet = pos.getEpSquare().isValid();
-                bool legalEp = orc::legalEpAvailable(b);
-                // call site Position::makeMove: ep square set for a pseudo-legal capture that is not legal
-                fail((epSet && !legalEp) ? "hash-differs:makeMove-ep-set-but-capture-illegal" : "hash-differs-for-rule-equal-positions", orc::toFEN(b));
+        // A node that carries an en-passant square whose capture is illegal is the known corner (judged just below against its own
+        // normalised copy); it must neither be compared with its class nor become the class's reference hash - whichever of two
+        // rule-equal nodes is reached first would otherwise decide how the other one is classified.
+        bool epCorner = pos.getEpSquare().isValid() && !orc::legalEpAvailable(b);
+        if (!epCorner) {
+            auto it = transpo.find(k);
+            if (it == transpo.end()) { if (transpo.size() < TRANSPO_CAP) transpo.emplace(k, h); }
+            else {
+                R.count("transpositions");
+                if (it->second != h) fail("hash-differs-for-rule-equal-positions", orc::toFEN(b));
             }
         }
         // and versus the normalised position (what the FEN reader / game code would hold)
@@ -313,6 +314,7 @@ int main(int argc, char** argv) {
     else if (part == "u3") uni::U3((int)w.args.getInt("wk", 0), P, [&](const orc::Board& b, unsigned long long) { if (!cut) runRoot(b, cut); });
     else if (part == "uep") uni::UEP(P, [&](const orc::Board& b, unsigned long long) { if (!cut) runRoot(b, cut); }, (int)w.args.getInt("sliders", 7));
     else if (part == "ucastle") uni::UCASTLE(P, [&](const orc::Board& b, unsigned long long) { if (!cut) runRoot(b, cut); }, w.args.getInt("blockers", 0) != 0);
+    else if (part == "ukraid") uni::UKRAID(P, [&](const orc::Board& b, unsigned long long) { if (!cut) runRoot(b, cut); });
     else return 2;
     if (cut) R.exhaustive = false;
     w.finish(R);
